@@ -30,6 +30,9 @@ CHECKS = {
  "C07": ("model_checking", "bounded-exhaustive program enumeration; every SER of every traced run is compared field by field with a reference execution account (resolution table, context diffs, states, processor log) under four host time zones",
          "For all programs of length 1-2 (thorough 1-3) over a 20-symbol alphabet and every parameter placement (none / all keys / each key alone, i.e. including defaults overridden by context), each SER's created/updated keys, processor.ref, parameters and parameter_sources, required-keys / input-type / output-type / context-writes checks, digest chaining and digest-as-function-of-content (also across worker processes), durations and timestamps (RFC 3339, true UTC instant inside the harness's wall-clock bracket, non-decreasing) are checked against the reference interpreter's account of the same run, with the host TZ switched between UTC, +09:00, -08:00 and +05:45.",
          "reference account mc/ref/interp.py (bound to the implementation by C01); wall-clock bracket +-2 ms; output_type_ok not judged on a failing node's SER", "3 C07"),
+ "C02": ("model_checking", "the inspection is the model: for every enumerated program it accepts, each fact it asserts (required keys, created/suppressed keys, parameter origins, unknown parameters) is replayed against real executions and the reference interpreter",
+         "All programs to length 2-3 (thorough 3-4) over the alphabet without deliberately failing processors plus near-spine programs of length 8; every accepted one is executed with exactly the reported required keys and with every superset by 1 (thorough 2) further keys: no unresolvable-parameter, deleted-key, unknown-parameter or type-gate failure may occur; with context == required keys, per-node created/suppressed keys and each parameter's origin channel and origin node must match the run. Use-before-create, create-and-require, delete-then-require and type changes across context-only nodes all occur within the bound.",
+         "reference interpreter bound to the implementation by C01; overwrite counts as created; non-flow failures (processor arithmetic, payload-source collision) are outside the claim", "3 C02"),
 }
 NA = []
 def main():
